@@ -378,7 +378,45 @@ func (hg *histGen) emitPattern() {
 	a := g.Intn(nO)
 	b := g.Intn(nO)
 	r := g.Intn(len(hg.mregs))
-	switch g.Intn(8) {
+	switch g.Intn(9) {
+	case 8: // a selection around a lint whose option the registry's configuration sets: parent and child must agree on it
+		var cands []int
+		for ci, c := range p.Cfgs {
+			if len(c.Targets) > 0 && !c.ExpectErr && !c.MayErr {
+				cands = append(cands, ci)
+			}
+		}
+		if len(cands) == 0 || len(hg.mregs) >= 6 {
+			hg.emitLint(a, r, false)
+			return
+		}
+		ci := pick(g, cands)
+		T := pick(g, p.Cfgs[ci].Targets)
+		if !hg.mregs[r].Sel[T] {
+			r = 0
+		}
+		if !hg.ensureLoaded(ci) {
+			return
+		}
+		p.Ops = append(p.Ops, Op{K: "setcfg", Reg: r, Cfg: ci})
+		hg.mregs[r].Cfg = ci
+		in := []string{T}
+		names := hg.mregs[r].names()
+		for _, j := range g.subset(len(names), g.Range(0, 6)) {
+			in = append(in, names[j])
+		}
+		child := hg.emitFilterOpts(r, &FilterOpts{IncludeNames: in})
+		// an object of T's kind
+		obj := a
+		for oi := range p.Objects {
+			if p.Objects[oi].Kind == hg.meta.ByName[T].Kind {
+				obj = oi
+			}
+		}
+		hg.emitLint(obj, r, true)
+		if child >= 0 {
+			hg.emitLint(obj, child, g.Chance(0.5))
+		}
 	case 7: // the same options twice, with a configuration change in between: two independent children
 		if len(hg.mregs) >= 6 {
 			hg.emitLint(a, r, false)
